@@ -141,7 +141,23 @@ impl EventGen for ReuseElement {
         } else if is_placed {
             // (the template's own anchors give way, in whatever form they are written)
             instance_element.expand_compound_pos();
-            pos.set_position_attrs(&mut instance_element);
+            if pos.to_bbox().is_none()
+                && matches!(
+                    instance_element.name.as_str(),
+                    "rect" | "image" | "use" | "svg" | "foreignObject" | "box"
+                )
+            {
+                // no size in user units (an image sized by its file, width="2cm"): the
+                // top-left corner is still where the instance is asked to be
+                if let Some(x) = pos.xmin {
+                    instance_element.set_attr("x", &fstr(x + pos.dx.unwrap_or(0.)));
+                }
+                if let Some(y) = pos.ymin {
+                    instance_element.set_attr("y", &fstr(y + pos.dy.unwrap_or(0.)));
+                }
+            } else {
+                pos.set_position_attrs(&mut instance_element);
+            }
         }
 
         let res = if let (false, Some((start, end))) = (
